@@ -83,3 +83,4 @@ package mkvs
 //@   ensures old(OvDirty(o, string(key)) && OvPresent(o, string(key))) ==> bytesId(result0) == old(btBytes(o.overlay, string(key)))
 //@   ensures !old(OvDirty(o, string(key))) && err == nil ==> OvDirty(o, string(key)) == (result0 != nil) && !btHas(o.overlay, string(key)) == !old(btHas(o.overlay, string(key)))
 //@   note returns the previous value of the view and leaves the key absent in the view: a dirty key loses its overlay binding, a clean key that exists in the inner tree becomes dirty without a binding, a clean key that does not exist stays clean
+
